@@ -636,7 +636,8 @@ class Family:
                         raise SortError("interpolant is not Boolean")
                 ev["itps"] = itps
                 ev["nitps"] = [tb.app("not", [t]) for t in itps]
-                legal = all(n in mir.top_names() for g in groups for n in g)
+                act0 = set(mir.active())
+                legal = all(n in mir.names and mir.names[n][0] in act0 for g in groups for n in g)
                 if legal and mir.mode == "unsat" and len(itps) == len(groups) - 1:
                     act = mir.active()
                     ok = self._small(act + itps) and self._defs_small(mir)
@@ -644,12 +645,12 @@ class Family:
                     if ev["mon"]:
                         A = []
                         for j, t in enumerate(itps):
-                            A = A + [mir.named(n) for n in groups[j]]
+                            A = A + [mir.names[n][0] for n in groups[j]]
                             B = [x for x in act if x not in A]
                             ev["hA"].append(self._hints_for(A + [ev["nitps"][j]], mir.defs))
                             ev["hB"].append(self._hints_for(B + [t], mir.defs))
                             if j + 1 < len(itps):
-                                Gn = [mir.named(n) for n in groups[j + 1]]
+                                Gn = [mir.names[n][0] for n in groups[j + 1]]
                                 ev["hP"].append(self._hints_for([t, ev["nitps"][j + 1]] + Gn, mir.defs))
                             else:
                                 ev["hP"].append([])
